@@ -49,7 +49,7 @@ def main():
         rec["confirmed"]["demo_without_change_exit"] = d0.returncode
         rec["confirmed"]["demo_output_tail"] = (d1.stdout + d1.stderr)[-600:]
         for chk in [prop] + extra:
-            for tier in ("quick", "thorough"):
+            for tier in ("quick",) if os.environ.get("SEED_QUICK_ONLY") else ("quick", "thorough"):
                 t0 = time.time()
                 r = sh([os.path.join(VERIF, "check"), chk, "--tier", tier], cwd=VERIF, env=dict(os.environ, VERIF_REPO=copy), timeout=3600)
                 viol = [l for l in r.stdout.splitlines() if l.startswith("VIOLATION") or l.strip().startswith("clause=")]
@@ -61,10 +61,15 @@ def main():
         rec["caught_by"] = caught
         dest = os.path.join(VERIF, "seeded", seed_id)
         os.makedirs(dest, exist_ok=True)
+        prev = os.path.join(dest, "meta.json")
+        if os.path.exists(prev):
+            old = json.load(open(prev))
+            rec["history"] = old.get("history", []) + [dict(caught_by=old.get("caught_by"), checks=old.get("checks"), verif_commit=old.get("verif_commit"))]
         shutil.copy(patch, os.path.join(dest, "patch.diff"))
         shutil.copy(demo, os.path.join(dest, "demo.py"))
         keep = rec["confirmed"]["patch_applies"] and rec["confirmed"]["tests_pass"] and d1.returncode == 1 and d0.returncode == 0
         rec["kept"] = keep
+        rec["verif_commit"] = sh(["git", "-C", VERIF, "log", "--format=%h", "-1"]).stdout.strip()
         rec["breaks_property"] = prop
         rec["needs_to_manifest"] = meta.get("needs_to_manifest")
         rec["what_was_run"] = [f"git apply patch.diff on a scratch worktree of /repo HEAD ({sh(['git', '-C', '/repo', 'log', '--format=%h', '-1']).stdout.strip()})",
